@@ -21,7 +21,7 @@ func TestMain(m *testing.M) { vp.Main(m) }
 // Step is one scripted behaviour of the underlying reader.
 type Step struct {
 	N   int `json:"n"`   // bytes to deliver at most
-	Err int `json:"err"` // 0 none, 1 injected error, 2 io.EOF
+	Err int `json:"err"` // 0 none, 1 injected error, 2 io.EOF, 3 a negative count (-(N%5+1)) with an error and no data
 }
 
 // ReadCase is a stream, a limit, a reader script and a sequence of buffer sizes.
@@ -53,6 +53,11 @@ func (s *scripted) Read(p []byte) (int, error) {
 		s.i++
 		scriptedStep = true
 	}
+	if st.Err == 3 {
+		// A misbehaving reader (read(2)-style -1): the library has an explicit
+		// guard for it, so it is one of "every behaviour of r".
+		return -(st.N%5 + 1), errInjected
+	}
 	n := min(st.N, len(p), s.n-s.pos)
 	for j := 0; j < n; j++ {
 		p[j] = streamByte(s.pos + j)
@@ -77,6 +82,7 @@ func checkRead(c ReadCase) error {
 	remaining := c.Limit
 	delivered := 0
 	straddle, faultBeforeLimit, afterLimit := false, false, 0
+	negative := false
 	for i, sz := range c.Sizes {
 		p := make([]byte, sz)
 		askedBefore := len(under.asked)
@@ -109,6 +115,15 @@ func checkRead(c ReadCase) error {
 		}
 		mp := make([]byte, want)
 		mn, merr := model.Read(mp)
+		if mn < 0 {
+			// Nothing can have been delivered by this call: 0 bytes, some
+			// error, and the allowance is what it was.
+			if n != 0 || err == nil {
+				return fmt.Errorf("call %d: the underlying reader returned the invalid count %d; Read returned (%d, %v), want 0 bytes and an error", i, mn, n, err)
+			}
+			negative = true
+			continue
+		}
 		if n != mn || err != merr {
 			return fmt.Errorf("call %d (buffer %d, allowance %d): Read returned (%d, %v), the underlying reader's own result for this call is (%d, %v)", i, sz, remaining, n, err, mn, merr)
 		}
@@ -143,6 +158,9 @@ func checkRead(c ReadCase) error {
 	if afterLimit > 0 {
 		vp.Class("read:calls-after-limit")
 	}
+	if negative {
+		vp.Class("read:underlying-reader-returned-a-negative-count")
+	}
 	if uint64(c.Len) == c.Limit {
 		vp.Class("read:len==limit")
 	}
@@ -165,7 +183,7 @@ var readProp = vp.Register(vp.Prop[ReadCase]{
 		}
 		limit := rapid.SampledFrom([]uint64{0, 1, uint64(max(l-1, 0)), uint64(l), uint64(l + 1), uint64(2 * l), uint64(l / 2), 1 << 63, math.MaxUint64}).Draw(t, "limit")
 		steps := rapid.SliceOfN(rapid.Custom(func(t *rapid.T) Step {
-			return Step{N: rapid.IntRange(0, 64).Draw(t, "n"), Err: rapid.SampledFrom([]int{0, 0, 0, 0, 1, 2}).Draw(t, "err")}
+			return Step{N: rapid.IntRange(0, 64).Draw(t, "n"), Err: rapid.SampledFrom([]int{0, 0, 0, 0, 0, 0, 0, 1, 1, 2, 2, 3}).Draw(t, "err")}
 		}), 0, 14).Draw(t, "steps")
 		return ReadCase{Len: l, Limit: limit, Steps: steps, Sizes: rapid.SliceOfN(rapid.IntRange(0, 64), 1, 20).Draw(t, "sizes")}
 	},
